@@ -225,6 +225,15 @@ def _cdesc(program, cid):
 def expand_constraint(program, c):
     """A constraint on a whole factor is a shorthand for one constraint per level."""
     fm = _fmap(program)
+    if c["kind"] in ("AtMostKInARow", "AtLeastKInARow", "ExactlyKInARow"):
+        # Reading decision 8 (Appendix B): the documentation does not say whether two applications of a
+        # strided window factor (stride > 1: trials in between carry no level) are "in a row".  The code
+        # counts consecutive applications; Sem.runs breaks a run at an empty cell.  Such programs are
+        # outside the reference semantics rather than judged by either reading.
+        fid = c["factor"] if "factor" in c else c["level"][0]
+        fd = fm[fid]
+        if fd["kind"] == "derived" and fd["window"]["type"] == "window" and (fd["window"].get("stride") or 1) > 1:
+            raise Unsupported("run-length constraint on a strided factor: documentation silent")
     if c["kind"] in ("AtMostKInARow", "AtLeastKInARow", "ExactlyKInARow", "ExactlyK") and "factor" in c:
         return [dict(c, level=[c["factor"], n], **{"factor_shorthand": True}) for n in level_names(fm[c["factor"]])]
     return [c]
@@ -318,6 +327,11 @@ def _finish(program, bd, mode):
             m = (m // c["su"] + 1) * c["su"]
     bd.T = max(T, m)
     bd.P = (bd.crossings[0]["P"] * bd.crossings[0]["su"]) if bd.crossings else 0
+    if bd.alignment == "post preamble" and bd.crossings:
+        # every crossing of a POST_PREAMBLE block starts after the unified preamble: that is the block's
+        # preamble (with the first crossing's own preamble instead, Merge([b]) would move b's constraint
+        # windows although the documentation says Merge([b]) = b; found by T2.v ex_post_preamble_merge_differs)
+        bd.P = max(c["P"] * c["su"] for c in bd.crossings)
     if bd.alignment == "equal preamble" and len(set(c["P"] for c in bd.crossings)) > 1:
         raise Unsupported("constructor rejects: EQUAL_PREAMBLE with different preambles")
     if mode != "repeat":
